@@ -360,14 +360,56 @@ def replay_x(func, a):
     return (not ok), 'tokeniser output for snippets %r, sequence_length %d violates the stream oracle' % ([bytes(s) for s in snippets], L)
   if func == 'domain':
     n = a['n']
-    cid = ((b'0123456789abcdef:' if a['long_form'] else b'') + b'f%04d_00' % n)
+    cid = (h.HASHES[a['form']] if 'form' in a else (b'0123456789abcdef:' if a['long_form'] else b'')) + b'f%04d_00' % n
     got = emnist.domain_id(cid)
     return got != (0 if 2100 <= n <= 2599 else 1), 'domain_id(%r) = %d' % (cid, got)
   return False, 'no replay'
 
 
+def cifar_concrete():
+  """The real preprocess_image_tff (float32) against float64 per-image standardisation on full-size crops."""
+  from fedjax.datasets import cifar100
+  rng = np.random.RandomState(1)
+  imgs = {'random': rng.randint(0, 256, size=(2, 32, 32, 3)), 'dark low contrast': rng.randint(0, 3, size=(2, 32, 32, 3)) + 100,
+          'bright low contrast': rng.randint(0, 3, size=(2, 32, 32, 3)) + 253, 'bright, one step': (rng.rand(2, 32, 32, 3) < 0.02).astype(int) + 254,
+          'constant': np.full((2, 32, 32, 3), 255), 'constant 0': np.zeros((2, 32, 32, 3), int)}
+  for name, im in imgs.items():
+    im = im.astype(np.uint8)
+    for ch, cw in ((24, 24), (32, 32), (1, 32), (5, 3)):
+      got = np.asarray(cifar100.preprocess_image_tff(im, ch, cw, False), np.float64)
+      oh, ow = (32 - ch) // 2, (32 - cw) // 2
+      x = im[:, oh:oh + ch, ow:ow + cw, :].astype(np.float64)
+      n = ch * cw * 3
+      mean = x.mean(axis=(1, 2, 3), keepdims=True)
+      std = x.std(axis=(1, 2, 3), keepdims=True)
+      expv = (x - mean) / np.maximum(std, 1.0 / np.sqrt(n))
+      if got.shape != expv.shape:
+        return True, '%s image, crop %dx%d: shape %s vs %s' % (name, ch, cw, got.shape, expv.shape)
+      d = float(np.max(np.abs(got - expv)))
+      if d > 1e-3 * (1 + float(np.max(np.abs(expv)))):
+        return True, '%s image, crop %dx%d: max abs difference %.4g from per-image standardisation (std %.4f)' % (name, ch, cw, d, float(std.min()))
+  return False, 'agrees'
+
+
+def tokenizer_concrete():
+  h, adapters = _xh()
+  from fedjax.datasets import shakespeare
+  for snippets, L in (([[2, 97], [3], [0, 1, 255]], 3), ([[3, 2, 3, 2]], 2), ([[], [1], []], 4), ([[97, 2, 98, 3, 99]], 5)):
+    try:
+      ok = h.check_tokenizer(shakespeare, adapters.RealNP, snippets, L)
+    except Exception as e:   # pylint: disable=broad-except
+      return True, 'tokeniser raises %r on snippets %r' % (e, [bytes(s) for s in snippets])
+    if not ok:
+      return True, 'tokeniser output for snippets %r, sequence_length %d is not the begin/characters/end label stream' % ([bytes(s) for s in snippets], L)
+  return False, 'agrees'
+
+
 def replay(data):
   k = data.get('kind')
+  if k == 'cifar_concrete':
+    return cifar_concrete()
+  if k == 'tok_concrete':
+    return tokenizer_concrete()
   if k in ('conv', 'loss', 'width'):
     return replay_conv(data)
   if k == 'cifar':
@@ -389,7 +431,7 @@ def check(run):
                       'NOT CLAIMED: the StackOverflow tokeniser (TensorFlow string ops); its id layout is taken from its documented constants',
                       'CIFAR crops checked symbolically for small crops (N = 3..18 values); training crops only by a concrete enumeration of offsets']
   run.bounds = {'sequence length': '1 (2)', 'classes': 'shakespeare 90, stackoverflow 7 (vocab 3)', 'cifar crops': '1x1, 2x1, 1x2, 2x2 (3x2)',
-                'tokeniser': '<=3 snippets of <=2 bytes from 6 representative bytes, sequence length 2..4', 'EMNIST number': '0..9999, both id forms'}
+                'tokeniser': '<=3 snippets of <=2 bytes from 6 representative bytes, sequence length 2..4', 'EMNIST number': '0..9999; short form, plain hash, two hashes containing decoy f<digits> fields'}
   for cv in conventions():
     run_conventions(run, cv, 1 if not thorough else 2, timeout)
   for ch, cw in ([(1, 1), (2, 1), (1, 2), (2, 2)] if not thorough else [(1, 1), (2, 1), (1, 2), (2, 2), (3, 2), (3, 3)]):
@@ -401,5 +443,11 @@ def check(run):
          (b'2100210021002100:f3999_21', 1)]
   badlit = [(c, emnist.domain_id(c), e) for c, e in lit if emnist.domain_id(c) != e]
   xh.concrete_probe(run, 'emnist-literal-ids', bool(badlit), str(badlit), {'kind': 'x', 'func': 'domain', 'args': repr({'n': 2100, 'long_form': True})})
+  # concrete layer (real code, real numpy): full-size CIFAR crops incl. bright low-contrast images (float32 cancellation), tokeniser
+  # on control bytes that coincide with label ids
+  bad, msg = cifar_concrete()
+  xh.concrete_probe(run, 'cifar100-full-size-crops', bad, msg, {'kind': 'cifar_concrete'})
+  bad, msg = tokenizer_concrete()
+  xh.concrete_probe(run, 'shakespeare-control-bytes', bad, msg, {'kind': 'tok_concrete'})
   specs = [('table', 'prop'), ('tokenizer', 'prop'), ('domain', 'prop'), ('tokenizer_reach', 'reach')]
   xh.discharge(run, HARNESS, specs, 300 if not thorough else 900, replay_x)
